@@ -1,5 +1,5 @@
 (* C15: the Huffman decoder model (decode.rs) against RFC 7541 5.2. *)
-From H3V Require Import Base.Bytes Base.BytesLemmas Gen.GenHuffDec Gen.GenBitwin
+From H3V Require Import Base.Bytes Base.BytesLemmas Gen.GenHuffDec Gen.GenBitwin Gen.GenHuffIter
   Spec.RFC7541Huffman Spec.HuffmanKnown Model.Huffman
   Proofs.C15Finite Proofs.BitsLemmas Proofs.HuffmanWalk Proofs.HuffmanStrict.
 From Coq Require Import ZifyBool ZifyNat ZifyN.
@@ -178,7 +178,8 @@ Proof.
   rewrite <- skipn_skipn'.
   rewrite skipn_bits_of_bytes, bits_of_bytes_cons.
   destruct (N.leb_spec (bit + c) 8) as [Hone|Htwo].
-  - f_equal. rewrite firstn_skipn_app_l by (rewrite bits_msb_length; lia).
+  - destruct (N.leb_spec 8 bit) as [?|_]; [lia|]. destruct (N.leb_spec 8 (8 - c)) as [?|_]; [lia|]. cbn [orb].
+    f_equal. rewrite firstn_skipn_app_l by (rewrite bits_msb_length; lia).
     apply read1_fact; lia.
   - destruct post as [|b1 post'].
     { cbn [length] in Hin. lia. }
@@ -186,7 +187,9 @@ Proof.
     assert (Hn1 : nth_n (pre ++ b0 :: b1 :: post') (byte + 1) = Some b1).
     { unfold nth_n. rewrite nth_error_app2 by lia.
       replace (N.to_nat (byte + 1) - length pre)%nat with 1%nat by lia. reflexivity. }
-    rewrite Hn1. f_equal.
+    rewrite Hn1.
+    destruct (N.leb_spec 16 bit) as [?|_]; [lia|]. destruct (N.leb_spec 16 (16 - c)) as [?|_]; [lia|]. cbn [orb].
+    f_equal.
     rewrite bits_of_bytes_cons, app_assoc.
     rewrite firstn_skipn_app_l by (rewrite app_length, !bits_msb_length; lia).
     apply read2_fact; lia.
@@ -226,20 +229,21 @@ Lemma all_bytes_ff_spec r : wf_bytes r -> all_bytes_ff r = all_ones (bits_of_byt
 Proof.
   induction r as [|b r IH]; intros Hwf; [reflexivity|].
   apply wf_bytes_cons in Hwf as [Hb Hr].
-  cbn [all_bytes_ff]. rewrite bits_of_bytes_cons, all_ones_app, IH by assumption. f_equal.
+  cbn [all_bytes_ff]. unfold hi_cp_filler_rest. rewrite bits_of_bytes_cons, all_ones_app, IH by assumption. f_equal.
   pose proof (pad1_fact 0 b ltac:(lia) Hb) as H. exact H.
 Qed.
 
 Lemma check_padding_spec e input : wf_bytes input -> (N.to_nat e <= 8 * length input)%nat ->
-  check_padding e input = all_ones (skipn (N.to_nat e) (bits_of_bytes input)).
+  check_padding e input = Ok (all_ones (skipn (N.to_nat e) (bits_of_bytes input))).
 Proof.
-  intros Hwf He. unfold check_padding.
+  intros Hwf He. unfold check_padding, hi_cp_div, hi_cp_mod, hi_cp_filler_first.
   destruct (skipn (N.to_nat (e / 8)) input) as [|b r] eqn:Hsk.
   - assert (Hlen : (length input <= N.to_nat (e / 8))%nat).
     { destruct (Nat.le_gt_cases (length input) (N.to_nat (e / 8))) as [|Hgt]; [assumption|].
       apply (f_equal (@length N)) in Hsk. rewrite skipn_length in Hsk. cbn in Hsk. lia. }
     rewrite skipn_all2; [reflexivity|]. rewrite bits_of_bytes_length. lia.
-  - destruct (skipn_split_at _ _ _ _ Hsk) as [Hsplit Hlen].
+  - destruct (N.leb_spec 8 (e mod 8)) as [?|_]; [lia|]. f_equal.
+    destruct (skipn_split_at _ _ _ _ Hsk) as [Hsplit Hlen].
     remember (firstn (N.to_nat (e / 8)) input) as pre eqn:Epre.
     clear Epre Hsk. subst input.
     apply wf_bytes_app in Hwf as [_ Hwf']. apply wf_bytes_cons in Hwf' as [Hb Hr].
@@ -278,6 +282,7 @@ Qed.
 
 Definition eof_ok (bit : N) : bool :=
   let k := 8 - bit in
+  (1 <=? N.shiftl 2 (k - 1) mod 65536) &&
   ((N.shiftl 2 (k - 1) mod 65536 - 1) mod 256 =? 2 ^ k - 1) &&
   (bits_val 0 (repeat true (N.to_nat k)) =? 2 ^ k - 1) &&
   (N.land (2 ^ k - 1) (2 ^ k - 1) =? 2 ^ k - 1).
@@ -300,10 +305,14 @@ Proof.
     replace (bw_bit w mod 8) with (bw_bit w) by lia.
     assert (Hk : 1 <= 8 - bw_bit w <= 8) by lia.
     rewrite read_bits_ok; [|assumption|assumption|assumption|lia|unfold bitpos, len in *; lia].
-    destruct (N.eqb_spec (8 - bw_bit w) 0) as [?|_]; [lia|].
+    unfold hi_eof_sub1, hi_eof_sub2, hi_eof_base.
+    destruct (N.ltb_spec (8 - bw_bit w) 1) as [?|_]; [lia|].
+    destruct (N.leb_spec 16 (8 - bw_bit w - 1)) as [?|_]; [lia|].
     pose proof (forall_below_spec 8 _ eof_check (bw_bit w) Hbit) as E. unfold eof_ok in E.
-    apply andb_true_iff in E as [E E3]. apply andb_true_iff in E as [E1 E2].
-    apply N.eqb_eq in E1, E2, E3. rewrite E1.
+    apply andb_true_iff in E as [E E3]. apply andb_true_iff in E as [E E2]. apply andb_true_iff in E as [E0 E1].
+    apply N.leb_le in E0. apply N.eqb_eq in E1, E2, E3.
+    destruct (N.ltb_spec (N.shiftl 2 (8 - bw_bit w - 1) mod 65536) 1) as [?|_]; [lia|].
+    rewrite E1.
     split.
     + destruct (N.land _ _ =? _); auto.
     + intros Hones.
@@ -405,6 +414,7 @@ Proof.
     { apply (f_equal (@length bool)) in Hl. rewrite Hrest in Hl.
       rewrite app_length, !skipn_length, bits_of_bytes_length in Hl.
       pose proof (code_bits_len x ltac:(lia)). lia. }
+    unfold hi_se_mul.
     replace (bw_byte w' * 8 + bw_bit w' + bw_count w') with (N.of_nat (pos_end w')) by (unfold pos_end; lia).
     specialize (IH w' Hbit' Hpos' ltac:(lia)). rewrite <- Hrest in IH.
     destruct (awalk f rest) as [out|].
